@@ -200,6 +200,7 @@ SegRules(t, sa, inv, lcp, minLen, maxLen, cbs, pairwise) ==
 (* ---- the stages of the sort driver against the stage model ---- *)
 DSS == INSTANCE DivSufSort
 TRS == INSTANCE TrSortImpl
+SSI == INSTANCE SsortImpl
 RECURSIVE MaxByte(_, _, _)
 MaxByte(t, i, acc) == IF i > Len(t) THEN acc ELSE MaxByte(t, i + 1, IF t[i] > acc THEN t[i] ELSE acc)
 
@@ -235,6 +236,26 @@ StageRules(e) ==
            /\ e.s1[1] >= 0
            /\ \A i \in 2..m : /\ Leq(subF[Dec(e.s1[i - 1])], subF[Dec(e.s1[i])])
                                /\ (e.s1[i] < 0 <=> subF[Dec(e.s1[i - 1])] = subF[Dec(e.s1[i])])>>,
+       (* the transcribed substring sort (SsortImpl.tla: bucket placement,   *)
+       (* ssort per bucket, rank fill) must leave exactly the arrays the     *)
+       (* real driver holds after stages 1 and 2                            *)
+       <<"DRIFT09.ssort_exact",
+         (e.m = m /\ m > 0 /\ m <= 100 /\ Len(e.s1) = m /\ Len(e.s2) = 2 * m) =>
+           LET pf    == [k \in 0..m - 1 |-> pos[k + 1]]
+               keyOf(k) == <<t[pos[k + 1] + 1], t[pos[k + 1] + 2]>>
+               keys  == { keyOf(k) : k \in 0..m - 1 }
+               KLess(c, c2) == c[1] < c2[1] \/ (c[1] = c2[1] /\ c[2] < c2[2])
+               ends0 == [c \in keys |-> Cardinality({ k \in 0..m - 1 : keyOf(k) = c \/ KLess(keyOf(k), c) })]
+               pl    == SSI!Place([i \in 0..m - 1 |-> 0], t, pos, 0, ends0, 0)
+               RECURSIVE desc(_, _)
+               desc(S, acc) == IF S = {} THEN acc
+                               ELSE LET c == CHOOSE c \in S : \A c2 \in S : c2 = c \/ KLess(c2, c)
+                                    IN desc(S \ {c}, Append(acc, c))
+               thr   == IF "st" \in DOMAIN e /\ e.st > 0 THEN e.st ELSE 7
+               a1    == TLCEval(SSI!SortBuckets(pl[1], t, pf, pl[2], desc(keys, <<>>), m, pl[3], thr))
+               rf    == TLCEval(SSI!RankFill(a1))
+           IN /\ \A i \in 0..m - 1 : a1[i] = e.s1[i + 1]
+              /\ \A i \in 0..m - 1 : rf[1][i] = e.s2[i + 1] /\ rf[2][i] = e.s2[m + i + 1]>>,
        <<"DRIFT09.stage2_ranks",
          (e.m = m /\ m > 0) => (Len(e.s2) = 2 * m /\ \A l \in 0..m - 1 : e.s2[m + l + 1] = SubRank(l))>>,
        (* the rank sort, round by round (TrSortRounds.tla): at the start of   *)
@@ -260,7 +281,7 @@ StageRules(e) ==
          (e.m = m /\ m > 0 /\ m <= 100 /\ Len(e.s2) = 2 * m /\ Len(e.s3) = 2 * m) =>
            LET sa0  == [i \in 0..m - 1 |-> e.s2[i + 1]]
                isa0 == [i \in 0..m - 1 |-> e.s2[m + i + 1]]
-               tr   == TLCEval(TRS!TrSort(sa0, isa0, 0))
+               tr   == TLCEval(TRS!TrSort(sa0, isa0, IF "trst" \in DOMAIN e THEN e.trst ELSE 0))
            IN /\ \A i \in 0..m - 1 : tr.sa[i] = e.s3[i + 1] /\ tr.isa[i] = e.s3[m + i + 1]
               /\ Len(tr.rounds) = Len(e.rounds)
               /\ \A k \in 1..Len(e.rounds) : \A i \in 0..m - 1 : tr.rounds[k][i] = e.rounds[k][i + 1]>>,
